@@ -21,6 +21,12 @@ CLAIMED = {
         ref="DESIGN.md §2 C16"),
 }
 
+CLAIMED["C15"] = dict(
+    engine="P", technique="grammar-based program generation (Hypothesis) with a subprocess crash oracle and structural reduction",
+    text="Generated bridge programs per backend feature profile are run through the diplomat-tool binary for every backend x config variant; any panic/abort/exit 101 after lowering is a violation, reduced structurally to a minimal lib.rs. Exploration only: finds reachable panic arms in the generated grammar, cannot show their absence.",
+    note="Trusted: classification of the tool's exit status/stderr. Known findings (known_findings.json) are steered around by construction and each re-confirmed by a dedicated probe.",
+    ref="DESIGN.md §2 C15")
+
 TODO_REASON = "check not built yet in this revision of /verif (planned, see DESIGN.md §2); not claimed until it is silent on the unchanged tree and kills its mutants"
 
 ALL = ["C%02d" % i for i in range(1, 18)]
